@@ -357,6 +357,8 @@ impl WorldB {
         let protocol = if variant == 2 || variant == 5 { self.protocol_id ^ 1 } else { self.protocol_id };
         let mut addrs: Vec<SocketAddr> = Vec::new();
         for k in 0..dead_leading {
+            // (deaddup: a backend that lists its preferred, currently silent, server twice before the alternative)
+            let k = if self.cfg.get("deaddup") == 1 { 0 } else { k };
             addrs.push(addr_v4(10, 9, 9, 1 + k as u8, 5990 + k as u16));
         }
         if variant == 3 {
@@ -549,6 +551,9 @@ pub fn gen_cfg(family: &str, rng: &mut Rng) -> Cfg {
     cfg.set("timeout", *rng.pick(&[1u64, 2, 5, 5, 15, 0xFFFF_FFFF])); // last = -1 (disabled)
     cfg.set("expire", *rng.pick(&[1u64, 2, 5, 30, 30, 300]));
     cfg.set("dead", *rng.pick(&[0u64, 0, 0, 1, 2]));
+    if cfg.get("dead") == 2 && rng.chance(1, 2) {
+        cfg.set("deaddup", 1);
+    }
     cfg.set("naddr", *rng.pick(&[1u64, 2, 3, 8, 32]));
     cfg.set("loss", *rng.pick(&[0u64, 0, 10, 25, 50]));
     cfg.set("dup", *rng.pick(&[0u64, 0, 10, 40]));
